@@ -10,7 +10,7 @@ out = []
 out.append("| property | level | obligations (quick) | functions under contract | mutants killed / generated (declared equivalent) | known findings | seeded changes (detected?) |")
 out.append("|---|---|---|---|---|---|---|")
 seeds = {}
-for d in sorted(glob.glob(os.path.join(ROOT, "seeded", "*"))):
+for d in sorted(glob.glob(os.path.join(ROOT, "seeded", "*", ""))):
     m = json.load(open(os.path.join(d, "meta.json")))
     seeds.setdefault(m["property"], []).append("%s (%s)" % (m["id"], m["detected"]))
 for p in props:
@@ -28,6 +28,8 @@ for p in props:
     lvl = c.get("category", "proof")
     if lvl == "exploration":
         ob = "bounded: %s evaluations" % cov.get("evaluations", "?")
+        if cov.get("obligations"):
+            ob += " + proved conjunct(s): %s / %s obligations discharged" % (cov.get("discharged", "?"), cov.get("obligations", "?"))
     else:
         ob = "%s / %s discharged" % (cov.get("discharged", "?"), cov.get("obligations", "?"))
         if cov.get("evaluations"):
@@ -45,7 +47,7 @@ for k in kf["fixed"]:
     ft.append("| %s | %s | fixed in /repo by %s | %s |" % (k["finding"], k["property"], k["commit"], k["entry"].split(" ", 3)[-1].replace("|", "/")))
 ftable = "\n".join(ft)
 st = ["| seed | property | needs in order to manifest | detected | by |", "|---|---|---|---|---|"]
-for d in sorted(glob.glob(os.path.join(ROOT, "seeded", "*"))):
+for d in sorted(glob.glob(os.path.join(ROOT, "seeded", "*", ""))):
     m = json.load(open(os.path.join(d, "meta.json")))
     st.append("| %s | %s | %s | %s | %s |" % (m["id"], m["property"], m["needs_to_manifest"].replace("|", "/"), m["detected"], m["detected_by"].replace("|", "/")))
 stable = "\n".join(st)
